@@ -274,7 +274,7 @@ var _ consensus.CommitRuler = (*scriptRuler)(nil)
 func c13Prune(p vbase.Params, r *vbase.Result) {
 	r.Rule = "real Committer + Blockchain driven by a scripted commit rule over random forests with equivocation (two blocks in one view) and gaps: blocks are stored through TryCommit in random " +
 		"(mostly causal) order and ancestors-or-self are committed along one branch; CommitEvent/AbortEvent observed on the event loop; oracle: every aborted block is off the committed chain, " +
-		"no block aborted twice, commit events form the parent chain; non-trivial: forest with a fork; distinct: (forest, order, commit points)"
+		"no block aborted twice, commit events form the parent chain; Extends for sampled pairs between commit-prunes and for all ordered pairs after the last one (true only for blocks on the parent chain; false only when a block between is not obtainable); non-trivial: forest with a fork; distinct: (forest, order, commit points)"
 	n := p.N(80000, 4000000)
 	w := NewWorld(1, crypto.NameEDDSA, 0)
 	for i := 0; i < n; i++ {
@@ -344,6 +344,42 @@ func c13Prune(p vbase.Params, r *vbase.Result) {
 		stored := map[int]bool{0: true}
 		var trace []string
 		bad := false
+		// ancestry queries between and after commit-prunes. Pruning removes blocks, so "false" is only judged when every
+		// block on the path is still obtainable; "true" for a target that is not on the parent chain is wrong whatever was pruned.
+		checkExtends := func(a, b int, when string) bool {
+			isAnc, pathOK := false, true
+			for cur := a; ; {
+				if cur == b {
+					isAnc = true
+					break
+				}
+				par := f.Blocks[cur].Parent
+				if par < 0 || f.Blocks[par].View < f.Blocks[b].View {
+					break
+				}
+				if _, ok := chain.LocalGet(rf.blocks[par].Hash()); !ok && !fetchOnly[par] {
+					pathOK = false
+				}
+				cur = par
+			}
+			got := chain.Extends(rf.blocks[a], rf.blocks[b])
+			r.Obs("extends_after_prune", 1)
+			if got && !isAnc {
+				r.Violate(vbase.Sig("prune-extends-true-for-non-ancestor"), fmt.Sprintf("%s: Extends(block %d (view %d), target %d (view %d)) = true, but the target is not on the block's parent chain; forest=%+v trace=%v",
+					when, a, f.Blocks[a].View, b, f.Blocks[b].View, f.Blocks, trace), map[string]any{"forest": f.Blocks, "trace": trace, "a": a, "b": b})
+				return false
+			}
+			if !got && isAnc && pathOK {
+				r.Violate(vbase.Sig("prune-extends-false-for-ancestor"), fmt.Sprintf("%s: Extends(block %d, target %d) = false although the target is on the parent chain and every block between is obtainable; forest=%+v trace=%v",
+					when, a, b, f.Blocks, trace), map[string]any{"forest": f.Blocks, "trace": trace, "a": a, "b": b})
+				return false
+			}
+			if got {
+				r.Obs("extends_after_prune_true", 1)
+			}
+			return true
+		}
+		interleave := rng.Chance(1, 2)
 		for _, id := range order {
 			// choose a commit target: an ancestor-or-self of id, strictly above the committed block,
 			// on the committed block's branch, all of whose ancestors down to it are stored.
@@ -418,8 +454,18 @@ func c13Prune(p vbase.Params, r *vbase.Result) {
 					bad = true
 				}
 			}
+			if interleave && !bad {
+				for k := 0; k < 4 && !bad; k++ {
+					bad = !checkExtends(rng.Intn(len(f.Blocks)), rng.Intn(len(f.Blocks)), "between commits")
+				}
+			}
 			if bad {
 				break
+			}
+		}
+		for a := 0; a < len(f.Blocks) && !bad; a++ {
+			for b := 0; b < len(f.Blocks) && !bad; b++ {
+				bad = !checkExtends(a, b, "after the last commit")
 			}
 		}
 		if !bad {
